@@ -2,6 +2,7 @@ package props
 
 import (
 	"fmt"
+	"image"
 	"image/color"
 	"math"
 	"math/big"
@@ -45,6 +46,10 @@ func clampRound(alpha float32, max float64) (want, alt float64) {
 	return
 }
 
+type customAlphaColour struct{ r, g, b, a uint32 }
+
+func (c customAlphaColour) RGBA() (uint32, uint32, uint32, uint32) { return c.r, c.g, c.b, c.a }
+
 // C14: alpha passes through exactly; linearised pixels stay validly premultiplied.
 func C14(tier string) {
 	r := ev.Begin("C14", tier, "exploration")
@@ -54,9 +59,9 @@ func C14(tier string) {
 	r.Assume("a fully transparent non-premultiplied 8-bit pixel given to ColorFromNRGBA keeps its decoded colour with alpha 0 (C04 requires the colour of alpha-0 NRGBA pixels to survive conversion); the zero-colour clause is checked on the premultiplied and generic constructors")
 	r.Assume("encode-side expectation round(alpha*max) is evaluated in float64; where alpha*max+0.5 lies within M*2.4e-7 of an integer either neighbour is accepted (float32 arithmetic)")
 	if tier == "thorough" {
-		r.Rule("decode: all 65,536 alphas x every constructor x 4 spaces, all 8-bit (channel, alpha) pairs; premultiplied validity of LineariseColor: ALL (c, alpha) pairs with c <= alpha over 16 bits (2,147,516,416 per curve, 3 curves + Display P3); encode: all 65,536 a/65535 alphas plus the float32 alphabet (powers of two, 1.5x, +/-, Inf, NaN) through every converter; distinct = (space, c, alpha) triples with 0 < c < alpha < max")
+		r.Rule("decode: all 65,536 alphas x every constructor x 4 spaces, all 8-bit (channel, alpha) pairs; premultiplied validity of LineariseColor: ALL (c, alpha) pairs with c <= alpha over 16 bits (2,147,516,416 per curve, 3 curves + Display P3); all alphas of Alpha/Alpha16/NYCbCrA/NRGBA/RGBA and a user-defined colour type; LineariseImage/EncodeImage on 256x256 images holding every alpha (origin (5,7), parallelism 1/3/7); encode: all 65,536 a/65535 alphas plus the float32 alphabet (powers of two, 1.5x, +/-, Inf, NaN) through every converter; distinct = (space, c, alpha) triples with 0 < c < alpha < max")
 	} else {
-		r.Rule("decode: all 65,536 alphas x every constructor x 4 spaces, all 8-bit (channel, alpha) pairs; premultiplied validity of LineariseColor: all alphas x c in {0,1,2,alpha/2,alpha-2,alpha-1,alpha} and 64 evenly spaced c <= alpha; encode: all 65,536 a/65535 alphas plus the float32 alphabet (powers of two, 1.5x, +/-, Inf, NaN) through every converter; distinct = (space, c, alpha) triples with 0 < c < alpha < max")
+		r.Rule("decode: all 65,536 alphas x every constructor x 4 spaces, all 8-bit (channel, alpha) pairs; premultiplied validity of LineariseColor: all alphas x c in {0,1,2,alpha/2,alpha-2,alpha-1,alpha} and 64 evenly spaced c <= alpha; all alphas of Alpha/Alpha16/NYCbCrA/NRGBA/RGBA and a user-defined colour type; LineariseImage/EncodeImage on 256x256 images holding every alpha (origin (5,7), parallelism 1/3/7); encode: all 65,536 a/65535 alphas plus the float32 alphabet (powers of two, 1.5x, +/-, Inf, NaN) through every converter; distinct = (space, c, alpha) triples with 0 < c < alpha < max")
 	}
 
 	// float32 alpha alphabet for the encode side
@@ -163,6 +168,43 @@ func C14(tier string) {
 			r.Eval(evals)
 		})
 
+		// ---- every other colour type that carries alpha, all 256 / 65,536 alphas
+		r.Par(ev.Workers(), func(shard, n int) {
+			var evals int64
+			other := func(name string, col color.Color) {
+				_, _, _, a16 := col.RGBA()
+				wantA := ratF32(int64(a16), 65535)
+				lin, alpha := sp.FromEncodedColor(col)
+				_, alpha2 := sp.FromLinearColor(col)
+				evals += 2
+				if math.Float32bits(alpha) != math.Float32bits(wantA) || math.Float32bits(alpha2) != math.Float32bits(wantA) {
+					r.Violate(sp.Name+"/"+name+"/alpha", fmt.Sprintf("%s decoding %s %v gives alpha %.9g / %.9g, A/65535 is %.9g", sp.Name, name, col, alpha, alpha2, wantA), nil, nil)
+				}
+				if a16 == 0 && lin != (linear.RGB{}) {
+					r.Violate(sp.Name+"/"+name+"/transparent", fmt.Sprintf("%s fully transparent %s %v decodes to %v", sp.Name, name, col, lin), nil, nil)
+				}
+				if out := sp.Linearise(col); uint32(out.A) != a16 || out.R > out.A || out.G > out.A || out.B > out.A {
+					r.Violate(sp.Name+"/"+name+"/LineariseColor", fmt.Sprintf("%s LineariseColor(%s %v) = %v (alpha in %d)", sp.Name, name, col, out, a16), nil, nil)
+				}
+				if out := sp.Encode(col); uint32(out.A) != a16 {
+					r.Violate(sp.Name+"/"+name+"/EncodeColor", fmt.Sprintf("%s EncodeColor(%s %v) = %v (alpha in %d)", sp.Name, name, col, out, a16), nil, nil)
+				}
+			}
+			for a := shard; a < 65536; a += n {
+				other("Alpha16", color.Alpha16{A: uint16(a)})
+				other("custom-with-alpha", customAlphaColour{uint32(a / 2), uint32(a), 0, uint32(a)})
+				if a < 256 {
+					other("Alpha", color.Alpha{A: uint8(a)})
+					for _, y := range []uint8{0, 40, 128, 255} {
+						other("NYCbCrA", color.NYCbCrA{YCbCr: color.YCbCr{Y: y, Cb: 100, Cr: 180}, A: uint8(a)})
+					}
+					other("NRGBA", color.NRGBA{R: 200, G: 3, B: uint8(a), A: uint8(a)})
+					other("RGBA", color.RGBA{R: uint8(a / 2), G: uint8(a), B: 0, A: uint8(a)})
+				}
+			}
+			r.Eval(evals)
+		})
+
 		// ---- encode side, float32 alphabet
 		for _, af := range falphas {
 			func() {
@@ -240,6 +282,49 @@ func C14(tier string) {
 			r.Eval(evals)
 			r.DistinctN(distinct)
 		})
+		// ---- the same through the image functions: a 256x256 image holding every
+		// alpha, at a non-zero origin, several degrees of parallelism
+		for _, kind := range []string{"RGBA64", "NRGBA64"} {
+			for _, par := range []int{1, 3, 7} {
+				for _, op := range []string{"LineariseImage", "EncodeImage"} {
+					rect := image.Rect(5, 7, 5+256, 7+256)
+					var src image.Image
+					var sp64 *image.RGBA64
+					var sn64 *image.NRGBA64
+					if kind == "RGBA64" {
+						sp64 = image.NewRGBA64(rect)
+						src = sp64
+					} else {
+						sn64 = image.NewNRGBA64(rect)
+						src = sn64
+					}
+					for a := 0; a < 65536; a++ {
+						x, y := 5+a%256, 7+a/256
+						if sp64 != nil {
+							sp64.SetRGBA64(x, y, color.RGBA64{R: uint16(a / 2), G: uint16(a), B: uint16(a / 3), A: uint16(a)})
+						} else {
+							sn64.SetNRGBA64(x, y, color.NRGBA64{R: 40000, G: uint16(a), B: 123, A: uint16(a)})
+						}
+					}
+					dst := image.NewRGBA64(image.Rect(0, 0, 256, 256))
+					r.Guard(sp.Name+"/"+op+"/panic", func() {
+						if op == "LineariseImage" {
+							sp.LineariseImage(dst, src, par)
+						} else {
+							sp.EncodeImage(dst, src, par)
+						}
+					})
+					for a := 0; a < 65536; a++ {
+						if got := dst.RGBA64At(a%256, a/256).A; got != uint16(a) {
+							r.Violate(sp.Name+"/"+op+"/alpha", fmt.Sprintf("%s.%s of a %s image at origin (5,7), parallelism %d: the pixel with alpha %d comes out with alpha %d", sp.Name, op, kind, par, a, got),
+								map[string]interface{}{"alpha": a, "parallelism": par, "kind": kind}, nil)
+							break
+						}
+					}
+					r.Eval(65536)
+				}
+			}
+		}
 		r.Sample(map[string]interface{}{"space": sp.Name, "pixel": "RGBA64{30000,40000,15000,40000}", "LineariseColor": sp.Linearise(color.RGBA64{R: 30000, G: 40000, B: 15000, A: 40000})})
 		if r.OutOfTime() {
 			r.Cap("time budget")
